@@ -11,9 +11,12 @@ pub fn absolute<T: AsRef<Path>>(path: T) -> Result<PathBuf, E> {
     for comp in path.components() {
         match comp {
             C::CurDir => (),
-            C::ParentDir => {
-                out.pop().ok_or(E::CannotBeExported(ERROR_MESSAGE))?;
-            }
+            // `..` may only step over a directory name: stepping over the root (or a prefix)
+            // would silently turn the path into a relative one
+            C::ParentDir => match out.pop() {
+                Some(C::Normal(_)) => (),
+                _ => return Err(E::CannotBeExported(ERROR_MESSAGE)),
+            },
             comp => out.push(comp),
         }
     }
